@@ -78,7 +78,13 @@ def configs(tier):
             ('3 threads + fault, preemption bound 1', 1, three_q + late),
             ('4-5 threads + fault, preemption bound 0 (free switches at blocking points)', 0, many)]
   rest3 = [c for c in three if c not in three_q]
-  return [('3 threads + fault (unbounded queue), preemption bound 1', 1, rest3),
+  quick_groups = [
+      ('2 threads + fault, preemption bound 2', 2, deep),
+      ('2 threads + fault (remaining modes), preemption bound 1', 1, shallow),
+      ('3 threads + fault, preemption bound 1', 1, three_q + late),
+      ('4-5 threads + fault, preemption bound 0 (free switches at blocking points)', 0, many)]
+  return quick_groups + [
+      ('3 threads + fault (unbounded queue), preemption bound 1', 1, rest3),
           ('2 threads + fault (remaining modes), preemption bound 2', 2, shallow),
           ('4-5 threads + fault, preemption bound 1', 1, many),
           ('3 threads + fault, preemption bound 2', 2, three_q + late),
